@@ -85,7 +85,7 @@ PROPS = {
         "level_note": "Trusted: chrono's rendering of the timestamp text (passed to the model as data), serde_json/nu_ansi_term escaping rules as modelled "
                       "(validated byte-exactly), kv Debug rendering restricted to printable ASCII + common escapes.",
         "correspondence": "Fmt model vs flexi_logger::{default,opt,detailed,with_thread,colored_*,json}_format through FileLogWriter/Logger",
-        "rule": "seeded records (all present/absent field combinations, messages with quotes/backslashes/control/non-ASCII/multi-line, kv pairs) x 9 formats x LF/CRLF x worker processes in UTC / non-UTC zones / with DeferredNow::force_utc(); same-format output pairs; recursive logging with CRLF; "
+        "rule": "seeded records (all present/absent field combinations, messages with quotes/backslashes/control/non-ASCII/multi-line, kv pairs) x 9 formats x LF/CRLF x worker processes in UTC / non-UTC zones / with DeferredNow::force_utc(); same-format output pairs through the primary writer's fan-out (OUTS) and through an additional writer plus the default channel (OUTSW, target {Sec,_Default}); recursive logging with CRLF; "
                 "non-trivial = at least one formatted line compared",
         "trusted": ["chrono strftime", "serde_json string escaping", "nu_ansi_term Style::paint"],
         "shards": 4,
@@ -153,7 +153,7 @@ PROPS = {
         "level_note": "PARTIAL for async: trigger_rotation is not ordered with queued records in async mode (not in the random stream; see DESIGN) and raw chunks equal to the "
                       "in-band control messages b\"F\"/b\"S\" are swallowed (known finding). Async is validated, the capacity-independence is proved.",
         "correspondence": "one Flw model run vs the real writer in 4 write modes",
-        "rule": "size criteria x namings x modes {direct, buf:1/7/64/8192, bufflush, async pool/msg small}; flush calls inside the histories in every mode (async: unobserved, a message in the channel between the records); non-trivial = rotation happened",
+        "rule": "size criteria x namings x modes {direct, buf:1/7/64/8192, bufflush, async pool/msg small}; flush calls inside the histories in every mode (async: unobserved, a message in the channel between the records); 18 runs with records logged from within Display (depth 1..3, direct/buffered/async, LF and CRLF); non-trivial = rotation happened",
         "trusted": ["crossbeam channel FIFO"],
     },
     "C04": {
@@ -216,7 +216,7 @@ PROPS = {
         "level_note": "Rotation + external rename is proved in the order-free form (the reading order of moved files is not chronological then), for every naming scheme. "
                       "Asynchronous mode is outside the property.",
         "correspondence": "Flw model (extRename/extRemove/reopen/reset, archived families) vs FileLogWriter::reopen_outputfile/reset and LoggerHandle::reopen_output/trigger_rotation (log_to_file and log_to_file_and_writer) on real files renamed/removed by the harness",
-        "rule": "histories with EXTREN/EXTRM+REOPEN and RESET to another discriminant x no rotation / all four namings x caps incl. tails below the capacity; plus 120 (thorough: 2000 per seed) histories through a real Logger (file only / file and a second writer); "
+        "rule": "histories with EXTREN/EXTRM+REOPEN and RESET to another discriminant x no rotation / all four namings x caps incl. tails below the capacity; plus 120 (thorough: 2000 per seed) histories through a real Logger (file only / file and a second writer); in a third of the reopens the external tool has put a fresh, empty file at the path first (EXTTOUCH); "
                 "non-trivial = rotation happened or a reopen/reset was executed",
         "trusted": ["OS: an open descriptor follows a renamed file; bytes written to an unlinked file are gone"],
     },
@@ -307,7 +307,7 @@ PROPS = {
         "level_note": "Three defects repaired (763ea2b bare file name, c5fbd22 start time recomputed, bcb4371 listing before first write). The start-time part is pinned "
                       "(suppress_timestamp) in the differential histories; custom timestamp formats: 3 year-first formats; the order lemmas carry the hypothesis 'year-first format' (stamps_order_dayfirst_violation_witness shows the full statement false for a day-first format).",
         "correspondence": "Names.render/existingLogFiles/tryFromName + Flw model (names, symlink) vs the real writer and FileSpec",
-        "rule": "all name-part combinations incl. empty basename, dotted/underscore names, names containing '_r' x namings x selectors (incl. rCURRENT and a custom current file side by side) x histories with rotation, cleanup, compression, restarts; "
+        "rule": "all name-part combinations incl. empty basename, dotted/underscore names, names containing '_r' x namings (indices of five, six and seven digits) x selectors (incl. rCURRENT and a custom current file side by side) x histories with rotation, cleanup, compression, restarts; "
                 "10 try_from paths incl. sub-directories; non-trivial = all",
         "trusted": ["std::path::Path::file_stem/extension (modelled as splitExt, validated)"],
     },
